@@ -107,6 +107,11 @@ var specLayout = map[string][]specField{
 	"Auth":        {{"ReasonCode", "byte", "reason|props"}, {"#props:Auth", "props", "reason|props"}},
 }
 
+// subscription options (§3.8.3.1)
+var specSubOptions = map[string]int64{
+	"OptQoS1": 0x01, "OptQoS2": 0x02, "OptQoS3": 0x03, "OptNL": 0x04, "OptRAP": 0x08, "OptRetain1": 0x10, "OptRetain2": 0x20, "OptRetain3": 0x30,
+}
+
 // CONNECT flag bits (§3.1.2.3)
 var specConnectFlags = map[string]int64{
 	"UsernameFlag": 0x80, "PasswordFlag": 0x40, "WillRetain": 0x20, "WillQoS2": 0x10, "WillQoS1": 0x08, "WillFlag": 0x04, "CleanStart": 0x02, "Reserved": 0x01,
